@@ -29,8 +29,23 @@ def main():
     wt, k, sid, prop, *checks = sys.argv[1:]
     wt = Path(wt)
     out = wt / "out" / k
+    if os.environ.get("SEED_FRESH_BASE") == "1":
+        # evaluate on top of the *current* /repo HEAD (the seed's own worktree may predate later fix commits):
+        # fresh scratch worktree, removed afterwards
+        fresh = Path(f"/tmp/seedbase-{os.getpid()}")
+        sh(f"git -C /repo worktree add -q --detach {fresh} HEAD")
+        try:
+            return evaluate(fresh, out, sid, prop, checks)
+        finally:
+            sh(f"git -C /repo worktree remove --force {fresh}")
+    return evaluate(wt, out, sid, prop, checks)
+
+
+def evaluate(wt, out, sid, prop, checks):
     env = dict(os.environ, PYTHONPATH=str(wt), PDQ_REPO=str(wt), JAX_PLATFORMS="cpu")
-    meta = {"seed_id": sid, "property": prop, "source": str(out), "ran": []}
+    meta = {"seed_id": sid, "property": prop, "source": str(out), "ran": [], "base": sh("git rev-parse --short HEAD", cwd=wt)[1].strip()}
+    old = VERIF / "seeded" / sid / "meta.json"
+    prev = json.loads(old.read_text()) if old.exists() else {}
     sh("git checkout -- .", cwd=wt)
     rc, o = sh(f"PYTHONPATH={wt} /venv/bin/python demo.py", cwd=out)
     meta["demo_without_change_rc"] = rc
@@ -69,6 +84,11 @@ def main():
         notes = (out / "notes.md").read_text()
         meta["needs_to_manifest"] = notes[:1500]
     meta["detected_by"] = [c for c, r in meta.get("checks", {}).items() if r["exit"] == 1]
+    for key in ("tests_pass", "pytest_tail", "history"):
+        if key not in meta and key in prev:
+            meta[key] = prev[key]
+    if prev.get("ran"):
+        meta["ran"] = [x for x in prev["ran"] if x.startswith("pytest")] + meta["ran"]
     (dst / "meta.json").write_text(json.dumps(meta, indent=1))
     print(json.dumps({k_: meta[k_] for k_ in ("seed_id", "tests_pass", "demo_without_change_rc", "demo_with_change_rc", "detected_by") if k_ in meta}))
     return 0
